@@ -6,6 +6,8 @@
   (structural + byte-level mutation in worker processes) is the oracle for everything not modelled.
 -/
 import Kust.Fns
+import Kust.Gen.CodeFacts
+import Kust.Reviewed
 namespace Kust.C12
 open Kust Node Fns
 
@@ -80,5 +82,13 @@ def elementIndexerOld (idx : Option Nat) (rn : Node) : Out (Option (Nat × Node)
 /-- witness of finding 3a (repaired): the old code panicked on `-` over an empty sequence. -/
 theorem Witness.elementIndexerOld_panics :
     (elementIndexerOld none (.seq 0 [])).isPanic = true := by decide
+
+/-- **panic_sites_covered**: the explicit `panic`s, unchecked type assertions and process exits reachable from
+    a build (SSA + RTA, regenerated) are exactly the reviewed list, each entry guarded by construction, limited to
+    embedded data, outside the domain, or a recorded finding.  A new site fails this `decide`. -/
+theorem panic_sites_covered :
+    Gen.panicSites = Reviewed.panicSites.map (fun e => (e.1, e.2.1, e.2.2.1)) := by decide +kernel
+
+theorem panic_sites_all_reviewed : Reviewed.panicSites.all (fun e => e.2.2.2 != "UNREVIEWED") = true := by decide +kernel
 
 end Kust.C12
